@@ -773,7 +773,7 @@ func (in *Inst) OpsFor(only []int) []string {
 				continue
 			}
 			p := in.prod(i)
-			if p == nil || (p.State() != state.Active && p.State() != state.Inactive) {
+			if p == nil || (p.State() != state.Active && p.State() != state.Inactive && p.State() != state.Illegal) {
 				continue
 			}
 			if in.A.IsArbitrator(p.NodePublicKey()) && in.nodeKey(p.NodePublicKey()) != nil {
